@@ -195,7 +195,7 @@ func checkLobe(r *ev.Run, what, params string, c rcase, axis c3, samples []sampl
 	for _, t := range []float64{-0.7, -0.2, 0.3, 0.8, 0.97, 0.9999} {
 		d0 := density(dirAt(axis, t, 0.3))
 		for _, phi := range []float64{1.1, 2.9, 4.4, 5.9} {
-			if d := density(dirAt(axis, t, phi)); math.Abs(d-d0) > 1e-6*(1+math.Abs(d0)) {
+			if d := density(dirAt(axis, t, phi)); !(math.Abs(d-d0) <= 1e-6*(1+math.Abs(d0))) {
 				return viol("density-not-symmetric", fmt.Sprintf("density %g vs %g at the same angle (cos %g) from the lobe axis %v", d, d0, t, axis))
 			}
 		}
@@ -203,7 +203,7 @@ func checkLobe(r *ev.Run, what, params string, c rcase, axis c3, samples []sampl
 	D := func(t float64) float64 { return density(dirAt(axis, t, 0.3)) }
 	breaks := gradedBreaks(extraBreaks...)
 	total := capMass(D, -1, breaks)
-	if math.Abs(total-1) > 2e-3 {
+	if !(math.Abs(total-1) <= 2e-3) {
 		return viol("density-not-normalised", fmt.Sprintf("(1/4pi) integral of the density over the sphere = %.6g", total))
 	}
 	// 2. samples: unit, and cap mass = polar draw
@@ -217,7 +217,7 @@ func checkLobe(r *ev.Run, what, params string, c rcase, axis c3, samples []sampl
 			worst := 0.0
 			for _, s := range samples {
 				d := s.out.(c3)
-				if math.Abs(d.Norm()-1) > 1e-9 {
+				if !(math.Abs(d.Norm()-1) <= 1e-9) {
 					return viol("sample-not-unit", fmt.Sprintf("sampled direction %v has length %g", d, d.Norm()))
 				}
 				t := math.Max(-1, math.Min(1, d.Dot(axis)))
@@ -251,7 +251,7 @@ func checkLobe(r *ev.Run, what, params string, c rcase, axis c3, samples []sampl
 				continue
 			}
 			d0 := g[0].out.(c3)
-			if math.Abs(d0.Dot(axis)) > 1-1e-9 {
+			if !(math.Abs(d0.Dot(axis)) <= 1-1e-9) {
 				continue
 			}
 			p0 := math.Atan2(d0.Dot(y), d0.Dot(x))
@@ -262,10 +262,10 @@ func checkLobe(r *ev.Run, what, params string, c rcase, axis c3, samples []sampl
 				want := 2 * math.Pi * (s.draws[ad] - g[0].draws[ad])
 				dp := math.Mod(p-p0-want+8*math.Pi+math.Pi, 2*math.Pi) - math.Pi
 				dm := math.Mod(p-p0+want+8*math.Pi+math.Pi, 2*math.Pi) - math.Pi
-				if math.Abs(dp) > 1e-6 {
+				if !(math.Abs(dp) <= 1e-6) {
 					okPlus = false
 				}
-				if math.Abs(dm) > 1e-6 {
+				if !(math.Abs(dm) <= 1e-6) {
 					okMinus = false
 				}
 			}
@@ -331,7 +331,7 @@ func materialStage(r *ev.Run, m int) {
 					axis := meanDir(ss).Normalize()
 					// the lobe axis is the mirror image of dest, pointing into the surface
 					want := n.Scale(2 * n.Dot(d)).Sub(d).Scale(-1)
-					if axis.Dist(want) > 1e-3 {
+					if !(axis.Dist(want) <= 1e-3) {
 						r.Violation("Phong/lobe-axis", fmt.Sprintf("alpha=%g normal %v dest %v: samples centre on %v, the mirror direction is %v", alpha, n, d, axis, want), c)
 						return
 					}
@@ -344,7 +344,7 @@ func materialStage(r *ev.Run, m int) {
 					for _, s := range []c3{dirAt(want, 0.9, 1), dirAt(want, 0.2, 4), dirAt(n.Scale(-1), 0.7, 2), dirAt(n.Scale(-1), 0.1, 5), dirAt(n, 0.5, 0.5)} {
 						got := mix.SourceDensity(n, s, d)
 						exp := (spec.SourceDensity(n, s, d) + lam.SourceDensity(n, s, d)) / 2
-						if math.Abs(got-exp) > 1e-9*(1+exp) {
+						if !(math.Abs(got-exp) <= 1e-9*(1+exp)) {
 							r.Violation("Phong/mixture-density", fmt.Sprintf("alpha=%g: density with a diffuse term is %g at %v, half specular + half Lambert is %g", alpha, got, s, exp), c)
 							return
 						}
@@ -369,7 +369,7 @@ func materialStage(r *ev.Run, m int) {
 						} else {
 							exp = lam.SampleSource(rand.New(sub), n, d)
 						}
-						if exp.Dist(s.out.(c3)) > 1e-12 {
+						if !(exp.Dist(s.out.(c3)) <= 1e-12) {
 							r.Violation("Phong/mixture-sampling", fmt.Sprintf("alpha=%g: with a diffuse term the sampler does not route the remaining draws to the specular / Lambert sampler", alpha), c)
 							return
 						}
@@ -392,7 +392,7 @@ func materialStage(r *ev.Run, m int) {
 					// the BSDF is the phase function (times the scatter colour), divided by |cos| unless normals are ignored
 					for _, s := range []c3{dirAt(d, 0.9, 1), dirAt(d, -0.3, 2), dirAt(d, 0.1, 5)} {
 						b := mat.BSDF(n, s, d)
-						if math.Abs(b.X-0.9*mat.SourceDensity(n, s, d)) > 1e-9*(1+b.X) {
+						if !(math.Abs(b.X-0.9*mat.SourceDensity(n, s, d)) <= 1e-9*(1+b.X)) {
 							r.Violation("HG/bsdf", fmt.Sprintf("g=%g: BSDF %g is not scatter colour x phase function %g", g, b.X, mat.SourceDensity(n, s, d)), c)
 						}
 					}
@@ -453,10 +453,10 @@ func materialStage(r *ev.Run, m int) {
 							exp += probs[i] * mt.SourceDensity(n, s, d)
 							expD += probs[i] * render3d.DestDensity(mt, n, d, s)
 						}
-						if got := jm.SourceDensity(n, s, d); math.Abs(got-exp) > 1e-9*(1+exp) {
+						if got := jm.SourceDensity(n, s, d); !(math.Abs(got-exp) <= 1e-9*(1+exp)) {
 							r.Violation("Joined/density", fmt.Sprintf("probs %v: SourceDensity %g, mixture of the parts %g", probs, got, exp), c)
 						}
-						if got := jm.DestDensity(n, d, s); math.Abs(got-expD) > 1e-9*(1+expD) {
+						if got := jm.DestDensity(n, d, s); !(math.Abs(got-expD) <= 1e-9*(1+expD)) {
 							r.Violation("Joined/density", fmt.Sprintf("probs %v: DestDensity %g, mixture of the parts %g", probs, got, expD), c)
 						}
 					}
@@ -493,7 +493,7 @@ func materialStage(r *ev.Run, m int) {
 							} else {
 								exp = render3d.SampleDest(jm.Materials[idx], rand.New(sub), n, d)
 							}
-							if exp.Dist(s.out.(c3)) > 1e-12 {
+							if !(exp.Dist(s.out.(c3)) <= 1e-12) {
 								r.Violation("Joined/sampling", fmt.Sprintf("probs %v: first draw %g should select part %d, but the result is not that part's sample", probs, s.draws[0], idx), c)
 								return
 							}
@@ -502,7 +502,7 @@ func materialStage(r *ev.Run, m int) {
 							tot += w
 						}
 						for i := range cnt {
-							if math.Abs(cnt[i]/tot-probs[i]) > 1.0/float64(int(1)<<uint(mm))+1e-9 {
+							if !(math.Abs(cnt[i]/tot-probs[i]) <= 1.0/float64(int(1)<<uint(mm))+1e-9) {
 								r.Violation("Joined/sampling", fmt.Sprintf("probs %v: part %d receives %.3f of the lattice", probs, i, cnt[i]/tot), c)
 							}
 						}
@@ -548,7 +548,7 @@ func checkRefract(r *ev.Run, m int, ior float64, spec bool, n, d c3) {
 		var lobes []lobe
 		for _, s := range ss {
 			dd := s.out.(c3)
-			if math.Abs(dd.Norm()-1) > 1e-9 {
+			if !(math.Abs(dd.Norm()-1) <= 1e-9) {
 				r.Violation("Refract/"+name+"/sample-not-unit", fmt.Sprintf("%s: sampled direction %v is not a unit vector", c.Params, dd), c)
 				return
 			}
@@ -568,12 +568,12 @@ func checkRefract(r *ev.Run, m int, ior float64, spec bool, n, d c3) {
 			// probability mass the density assigns to the cap around the lobe = density x cap fraction (eps/2)
 			mass := dens(l.dir) * eps / 2
 			sum += mass
-			if math.Abs(mass-l.p) > 1.0/float64(len(ss))+1e-9 {
+			if !(math.Abs(mass-l.p) <= 1.0/float64(len(ss))+1e-9) {
 				r.Violation("Refract/"+name+"/density-vs-sampler", fmt.Sprintf("%s normal %v fixed %v: the sampler returns %v with probability %.4f, the density puts mass %.4f there", c.Params, n, d, l.dir, l.p, mass), c)
 				return
 			}
 		}
-		if math.Abs(sum-1) > 2.0/float64(len(ss))+1e-9 && len(lobes) > 0 {
+		if !(math.Abs(sum-1) <= 2.0/float64(len(ss))+1e-9) && len(lobes) > 0 {
 			r.Violation("Refract/"+name+"/density-not-normalised", fmt.Sprintf("%s normal %v fixed %v: the delta lobes carry total mass %.4f", c.Params, n, d, sum), c)
 			return
 		}
@@ -599,7 +599,7 @@ func checkRefract(r *ev.Run, m int, ior float64, spec bool, n, d c3) {
 			for _, l := range lobes {
 				if l.dir.Dist(mirror) < 1e-6 {
 					got := dens(l.dir) * eps / 2
-					if math.Abs(got-want) > 1e-6 {
+					if !(math.Abs(got-want) <= 1e-6) {
 						r.Violation("Refract/fresnel-schlick", fmt.Sprintf("ior=%g, cos(incidence)=%.4f: mirror-lobe share %.6f, Schlick's R0 + (1-R0)(1-cos)^5 = %.6f (R0 = %.6f)", ior, cos, got, want, r0), c)
 						return
 					}
@@ -680,12 +680,12 @@ func lightStage(r *ev.Run, m int) {
 		for i := 0; i < 4096; i++ {
 			p, nrm, e := l.SampleLight(gen)
 			r.Eval(1)
-			if math.Abs(p.Dist(sp.Center)-sp.Radius) > 1e-9*sp.Radius || nrm.Dist(p.Sub(sp.Center).Normalize()) > 1e-9 || e != em {
+			if !(math.Abs(p.Dist(sp.Center)-sp.Radius) <= 1e-9*sp.Radius) || !(nrm.Dist(p.Sub(sp.Center).Normalize()) <= 1e-9) || e != em {
 				r.Violation("SphereAreaLight/sample", fmt.Sprintf("sphere %v: sample %v normal %v emission %v is not on the surface with the outward normal", *sp, p, nrm, e), rcase{What: "SphereAreaLight"})
 				break
 			}
 		}
-		if want := em.Sum() * 4 * math.Pi * sp.Radius * sp.Radius; math.Abs(l.TotalEmission()-want) > 1e-9*want {
+		if want := em.Sum() * 4 * math.Pi * sp.Radius * sp.Radius; !(math.Abs(l.TotalEmission()-want) <= 1e-9*want) {
 			r.Violation("SphereAreaLight/TotalEmission", fmt.Sprintf("TotalEmission %g, emission x area %g", l.TotalEmission(), want), rcase{What: "SphereAreaLight"})
 		}
 	}
@@ -700,7 +700,7 @@ func lightStage(r *ev.Run, m int) {
 		h := cy.P1.Dist(cy.P2)
 		axis := cy.P2.Sub(cy.P1).Normalize()
 		capA, shaftA := math.Pi*cy.Radius*cy.Radius, 2*math.Pi*cy.Radius*h
-		if want := em.Sum() * (2*capA + shaftA); math.Abs(l.TotalEmission()-want) > 1e-9*want {
+		if want := em.Sum() * (2*capA + shaftA); !(math.Abs(l.TotalEmission()-want) <= 1e-9*want) {
 			r.Violation("CylinderAreaLight/TotalEmission", fmt.Sprintf("%s: TotalEmission %g, emission x area %g", c.Params, l.TotalEmission(), want), c)
 		}
 		mm := m - 1
@@ -740,7 +740,7 @@ func lightStage(r *ev.Run, m int) {
 		if ok {
 			tot := 2*capA + shaftA
 			for i, want := range []float64{capA / tot, capA / tot, shaftA / tot} {
-				if math.Abs(mass[i]-want) > 2.0/float64(int(1)<<uint(mm)) {
+				if !(math.Abs(mass[i]-want) <= 2.0/float64(int(1)<<uint(mm))) {
 					r.Violation("CylinderAreaLight/part-selection", fmt.Sprintf("%s: part %d (0,1 = caps, 2 = shaft) receives %.4f of the samples, its share of the area is %.4f", c.Params, i, mass[i], want), c)
 				}
 			}
@@ -817,7 +817,7 @@ func lightStage(r *ev.Run, m int) {
 		l := render3d.NewMeshAreaLight(mesh, em)
 		c := rcase{What: "MeshAreaLight", Params: nm.Name}
 		area := mesh.Area()
-		if want := em.Sum() * area; math.Abs(l.TotalEmission()-want) > 1e-9*want {
+		if want := em.Sum() * area; !(math.Abs(l.TotalEmission()-want) <= 1e-9*want) {
 			r.Violation("MeshAreaLight/TotalEmission", fmt.Sprintf("%s: TotalEmission %g, emission x area %g", nm.Name, l.TotalEmission(), want), c)
 		}
 		mm := m - 1
@@ -862,7 +862,7 @@ func lightStage(r *ev.Run, m int) {
 			}
 		}
 		for i, t := range tris {
-			if math.Abs(mass[i]-t.Area()/area) > 2.0/float64(int(1)<<uint(mm)) {
+			if !(math.Abs(mass[i]-t.Area()/area) <= 2.0/float64(int(1)<<uint(mm))) {
 				r.Violation("MeshAreaLight/face-selection", fmt.Sprintf("%s: face %d receives %.4f of the samples, its share of the area is %.4f", nm.Name, i, mass[i], t.Area()/area), c)
 				break
 			}
@@ -875,7 +875,7 @@ func lightStage(r *ev.Run, m int) {
 	l3 := render3d.NewMeshAreaLight(cat.Closed3(true)[0].Mesh().Translate(model3d.XYZ(-6, 0, 0)), render3d.NewColor(4))
 	j := render3d.JoinAreaLights(l1, l2, l3)
 	tot := l1.TotalEmission() + l2.TotalEmission() + l3.TotalEmission()
-	if math.Abs(j.TotalEmission()-tot) > 1e-9*tot {
+	if !(math.Abs(j.TotalEmission()-tot) <= 1e-9*tot) {
 		r.Violation("JoinAreaLights/TotalEmission", fmt.Sprintf("TotalEmission %g, sum of the parts %g", j.TotalEmission(), tot), rcase{What: "JoinAreaLights"})
 	}
 	var cnt [3]float64
@@ -896,7 +896,7 @@ func lightStage(r *ev.Run, m int) {
 		}
 	}
 	for i, l := range []render3d.AreaLight{l1, l2, l3} {
-		if math.Abs(cnt[i]/float64(n)-l.TotalEmission()/tot) > 2.0/float64(n) {
+		if !(math.Abs(cnt[i]/float64(n)-l.TotalEmission()/tot) <= 2.0/float64(n)) {
 			r.Violation("JoinAreaLights/selection", fmt.Sprintf("part %d is chosen with probability %.4f, its share of the emitted power is %.4f", i, cnt[i]/float64(n), l.TotalEmission()/tot), rcase{What: "JoinAreaLights"})
 		}
 	}
